@@ -3,6 +3,6 @@ CONSTANTS
   StrictA = FALSE
   CheckCat = FALSE
   CheckOrder = FALSE
-INVARIANTS NoLeak
+INVARIANTS NoLeak NoLeakInLedger
 POSTCONDITION TraceAccepted
 CHECK_DEADLOCK FALSE
